@@ -40,6 +40,9 @@ def _decision_script(dec):
         return [["recv"], ["send", m], ["recv_until_disconnect"]]
     if kind == "close":
         return [["recv"], ["send", {"type": "websocket.close"}], ["linger", 1.0]]
+    if kind == "close_wait":
+        # ... and then waits, as applications do, for the websocket.disconnect that ends every WebSocket scope
+        return [["recv"], ["send", {"type": "websocket.close"}], ["recv_until_disconnect"], ["note", "saw-disconnect"]]
     if kind == "http":
         status, headers, chunks = dec[1], dec[2], dec[3]
         start = {"type": "websocket.http.response.start", "status": status, "headers": headers}
@@ -50,7 +53,10 @@ def _decision_script(dec):
             sc.append(["send", {"type": "websocket.http.response.body", "body": c, "more_body": i < len(chunks) - 1}])
         if not chunks:
             sc.append(["send", {"type": "websocket.http.response.body", "body": b"", "more_body": False}])
-        sc.append(["linger", 1.0])
+        if len(dec) > 4 and dec[4] == "wait":
+            sc += [["recv_until_disconnect"], ["note", "saw-disconnect"]]
+        else:
+            sc.append(["linger", 1.0])
         return sc
     if kind == "crash":
         return [["recv"], ["raise", "Exception"]]
@@ -76,8 +82,8 @@ def gen(rng, tier):
     decisions = [("accept", None, None), ("accept", "chat", None), ("accept", "nope", None),
                  ("accept", None, [(b"x-extra", b"1"), (b"x-two", b"2")]),
                  ("accept", None, [(b"sec-websocket-protocol", b"chat")]), ("accept", None, [(b":status", b"200")]),
-                 ("close",), ("http", 401, [(b"x-why", b"auth"), (b"content-length", b"6")], [b"de", b"ni", b"ed"]),
-                 ("http", 307, [(b"location", b"/elsewhere")], []), ("http", 200, [], [b"plain"]), ("http", 403, None, [b"no-headers-key"]), ("crash",)]
+                 ("close",), ("close_wait",), ("http", 401, [(b"x-why", b"auth"), (b"content-length", b"6")], [b"de", b"ni", b"ed"]),
+                 ("http", 307, [(b"location", b"/elsewhere")], []), ("http", 200, [], [b"plain"]), ("http", 403, None, [b"no-headers-key"]), ("http", 401, [(b"x-why", b"auth")], [b"de", b"nied"], "wait"), ("crash",)]
     # ---- handshake validity product ---------------------------------------------------------
     for ver, key, conn, upg, hv, pr, ex in itertools.product(versions, keys, conns, upgs, httpvs, protos, exts):
         cases.append(("hs", ver, key, conn, upg, hv, pr, ex, rng.choice(decisions)))
@@ -368,11 +374,25 @@ def check(case, obs, tally):
             for nme, v in (extra or []):
                 if v not in hd.get(nme, []):
                     out.append({"clause": "accept", "sig": "C11.extra-header-lost", "detail": "extra header %r missing from %r" % ((nme, v), headers)})
-        elif dec[0] == "close":
+        elif dec[0] in ("close", "close_wait"):
+            if dec[0] == "close_wait":
+                tally.clause("close-code")
+                nd = sum(1 for m in obs.apps.recvs[inst] if m.get("type") == "websocket.disconnect")
+                if nd != 1:
+                    out.append({"clause": "close-code", "sig": "C11.disconnect-count-%d/refused-then-waiting" % nd,
+                                "detail": "the application refused the handshake (websocket.close) and went on to wait for websocket.disconnect: it received %d; "
+                                          "client saw status %r, connection closed at %r" % (nd, status, obs.closed_at)})
             if status != 403:
                 out.append({"clause": "decision", "sig": "C11.close-not-403/h%s" % hv, "detail": "websocket.close before accept gave %r" % status})
         elif dec[0] == "http":
             st, hs, chunks = dec[1], dec[2] or [], dec[3]
+            if len(dec) > 4 and dec[4] == "wait":
+                tally.clause("close-code")
+                nd = sum(1 for m in obs.apps.recvs[inst] if m.get("type") == "websocket.disconnect")
+                if nd != 1:
+                    out.append({"clause": "close-code", "sig": "C11.disconnect-count-%d/refused-then-waiting" % nd,
+                                "detail": "the application refused the handshake with a complete response of its own and went on to wait for websocket.disconnect: "
+                                          "it received %d; client saw status %r, connection closed at %r" % (nd, status, obs.closed_at)})
             exp_body = b"".join(chunks)
             if status != st:
                 out.append({"clause": "decision", "sig": "C11.http-response/status", "detail": "status %r expected %r" % (status, st)})
